@@ -185,6 +185,20 @@ CHECKS = {
              'the probe result equals the empty-history result and MasterConfig is as before.',
         note='Baseline is computed in the worker process before any operation; a fresh interpreter is used by the replay. '
              'The private TRS.__CACHE is not written to directly (only through the public API and _clear_cache/_USE_CACHE).'),
+    'C20': dict(
+        engine='S+M', category='other', design_ref='DESIGN.md §4 C20',
+        technique='CrossHair symbolic execution of the real PLSSChunker / SecFinder / marker walk / rebuild_sec_within under pairs of '
+                  'parse modes on symbolic well-formed documents (contract finder patterns); z3 exact bounded regex model for the '
+                  'colon group of the live multisec_regex',
+        text='For every well-formed single-layout document (4 layouts x 1..2 Twp/Rge groups x 1..2 section groups x blocks x single '
+             'section / through-range x colon on/off x 3 separators): default and segment both give exactly the template\'s expected '
+             'tracts with no error flag; with every section followed by a colon the three colon modes give identical tracts and '
+             'warnings; with no colon, cautious = default tracts + a pulled_sec_without_colon warning and required = one fallback '
+             'tract with the whole text; sec_within (3 leads x section|range x 3 trails x 3 Twp/Rge placements) joins leading and '
+             'trailing text in order into the section\'s tract(s) with a sec_within warning. M: on section word x 1-2 items x 5 '
+             'connectives x colon spelling x following block (N <= 28 / 36) the colon group participates iff a colon follows.',
+        note='Expected tracts come from props/wf_docs.py (written from the documented layouts). Blocks in the M template start with a '
+             'letter and contain no section word or digit (a digit-leading block is the known defect of C01/C05).'),
 }
 
 NOT_YET = 'check not built yet in this round (see DESIGN.md §9 build order)'
